@@ -8,7 +8,7 @@ xm_c17: replays xsl:number requests on the Lean model and on the Lean specificat
   cls <class id per node>                                     -> ok            (default count pattern = same class)
   num <s|m|a> <count bits|-> <count bits for the specification|=> <from bits|-> <fmt hex|-> <gsep hex|-> <gsize|-> <visited node>…
         -> one entry per visit:  <formatted hex | !err>|<model list>|<spec list>|<flags>
-           flags: n = a null pointer reaches getMatchScore, h = answer differs from the empty-cache answer, - = none
+           flags: h = answer differs from the empty-cache answer, - = none
   fmt <fmt hex|-> <gsep hex|-> <gsize|-> <number>…          -> formatted hex | !err        (formatNumberList)
   val <fmt hex|-> <gsep hex|-> <gsize|-> <integer>           -> formatted hex | !err        (value= path)
   dec <fmt hex|-> <gsep hex|-> <gsize|-> <string hex>        -> a.b.c | none                 (decodeList)
@@ -82,7 +82,7 @@ def numStep (s : St) (level count scount from_ fmt gsep gsize : String) (visits 
         let scratch := getCountList d cfg after [] v
         let spec := numberSpec d lv (specCount v) cfg.fromP v
         let out := if r.2.isEmpty then some [] else formatNumberList alnum g fmtS r.2
-        let fl := (if derefsNull d cfg v then "n" else "") ++ (if scratch.2 ≠ r.2 then "h" else "")
+        let fl := if scratch.2 ≠ r.2 then "h" else ""
         s!"{showOut out}|{showList r.2}|{showList spec}|{if fl.isEmpty then "-" else fl}" :: go r.1 rest
     " ".intercalate (go [] vs)
   | _, _, _, _ => "bad"
